@@ -29,6 +29,7 @@ type Session struct {
 	FileChunk int         `json:"file_chunk,omitempty"`
 	StdoutTTY bool        `json:"stdout_tty,omitempty"` // stdout is a terminal (or /dev/null): a character device
 	Env       [][2]string `json:"env,omitempty"`        // environment variables of every process
+	Links     [][2]string `json:"links,omitempty"`      // symbolic links: name, target
 	Arg0      string      `json:"arg0,omitempty"`       // how the binary is called
 	Files     []File      `json:"files"`
 	Dirs      []string    `json:"dirs,omitempty"`
@@ -199,7 +200,7 @@ func roundTripPromised(s Session, r *sessRun) (bool, *Val, string) {
 	if f0.output == "" || len(fl.args) == 0 || fl.args[0] != f0.output || !fl.patch {
 		return false, nil, ""
 	}
-	if _, ok := r.FSPost[0].Files[f0.output]; !ok {
+	if _, ok := r.FSPost[0].Files[r.FSPost[0].Resolve(f0.output)]; !ok {
 		return false, nil, ""
 	}
 	// "jd [flags] a b" then "jd -p [flags]": the same flags on both sides
@@ -275,7 +276,7 @@ func checkRoundTrip(s Session, r *sessRun) *Violation {
 	f := parseArgv(p.Argv)
 	out := res.Stdout
 	if f.output != "" {
-		out = r.Final.Files[f.output]
+		out = r.Final.Files[r.Final.Resolve(f.output)]
 	}
 	got, err := parseDoc(string(out), s.RT.YAML)
 	if err != nil {
@@ -283,7 +284,7 @@ func checkRoundTrip(s Session, r *sessRun) *Violation {
 	}
 	m := cmpMode{Arrays: s.RT.Arrays, Eps: s.RT.Eps}
 	if !equalVals(got, tgt, m) {
-		if f0 := parseArgv(s.Procs[0].Argv); s.RT.Merge && f0.output != "" && strings.TrimSpace(string(r.FSPost[0].Files[f0.output])) == "{}" {
+		if f0 := parseArgv(s.Procs[0].Argv); s.RT.Merge && f0.output != "" && strings.TrimSpace(string(r.FSPost[0].Files[r.FSPost[0].Resolve(f0.output)])) == "{}" {
 			v := viol14("round-trip-differs", p, e, "the merge patch `jd %s` wrote is {} (a non-object document becoming the empty object); `jd %s` then leaves the document unchanged: got %s, second input was %s", strings.Join(s.Procs[0].Argv, " "), strings.Join(p.Argv, " "), show(out), show([]byte(tgtText)))
 			v.Tag = "empty-object-merge-patch"
 			return v
@@ -346,11 +347,11 @@ func stdinVariant(p ProcSpec, plan []int, eofWithData bool) (ProcSpec, bool) {
 func checkC14(c C14Case) (*Violation, []string, *caseInfo) {
 	s := c.S
 	info := &caseInfo{}
-	base := runSession(s, fsFromFiles(s.Files, s.Dirs), true, false)
+	base := runSession(s, fsFromSession(s.Files, s.Dirs, s.Links), true, false)
 	info.fill(s, base, c.V, nil)
 	switch c.V.Clause {
 	case "base":
-		pre := fsFromFiles(s.Files, s.Dirs)
+		pre := fsFromSession(s.Files, s.Dirs, s.Links)
 		for i := range base.Res {
 			if v := compareToModel(s, base, i, pre); v != nil {
 				return v, base.Log, info
@@ -374,7 +375,7 @@ func checkC14(c C14Case) (*Violation, []string, *caseInfo) {
 		if q.Stdin != nil && strings.HasPrefix(q.Stdin.From, "file:") {
 			// the equivalence is about an input that exists: a missing file has
 			// no stdin counterpart
-			pre := fsFromFiles(s.Files, s.Dirs)
+			pre := fsFromSession(s.Files, s.Dirs, s.Links)
 			if i > 0 {
 				pre = base.FSPost[i-1]
 			}
@@ -386,7 +387,7 @@ func checkC14(c C14Case) (*Violation, []string, *caseInfo) {
 		s2 := s
 		s2.Procs = append([]ProcSpec(nil), s.Procs...)
 		s2.Procs[i] = q
-		alt := runSession(s2, fsFromFiles(s.Files, s.Dirs), false, false)
+		alt := runSession(s2, fsFromSession(s.Files, s.Dirs, s.Links), false, false)
 		info.fill(s2, alt, c.V, nil)
 		if len(alt.Res[i].Stdout) > 0 || len(base.Stdin[i]) > 4096 || len(alt.Stdin[i]) > 4096 {
 			if len(alt.Stdin[i]) > 4096 {
@@ -423,7 +424,7 @@ func checkC14(c C14Case) (*Violation, []string, *caseInfo) {
 				s2.Procs[i].Bin = "v2"
 			}
 		}
-		alt := runSession(s2, fsFromFiles(s.Files, s.Dirs), false, false)
+		alt := runSession(s2, fsFromSession(s.Files, s.Dirs, s.Links), false, false)
 		info.fill(s2, alt, c.V, nil)
 		for j := range base.Res {
 			if ok, why := sameOutcome(base.Res[j], alt.Res[j]); !ok {
@@ -439,7 +440,7 @@ func checkC14(c C14Case) (*Violation, []string, *caseInfo) {
 		// the same session with every map range inside jd reversed: nothing
 		// observable may depend on Go's map iteration order
 		verifseam.Hook = func(site string, n int) (int, uint64) { return verifseam.Reverse, 0 }
-		alt := runSession(s, fsFromFiles(s.Files, s.Dirs), false, false)
+		alt := runSession(s, fsFromSession(s.Files, s.Dirs, s.Links), false, false)
 		verifseam.Hook = nil
 		info.fill(s, alt, c.V, nil)
 		for j := range base.Res {
@@ -467,7 +468,7 @@ func checkC14Fault(c C14Case, base *sessRun, info *caseInfo) (*Violation, []stri
 	s2 := s
 	s2.Procs = append([]ProcSpec(nil), s.Procs...)
 	s2.Procs[i].Faults = []simos.Fault{*c.V.Fault}
-	fs := fsFromFiles(s.Files, s.Dirs)
+	fs := fsFromSession(s.Files, s.Dirs, s.Links)
 	flt := runSession(s2, fs, false, true)
 	if len(flt.Res) <= i || len(flt.Res[i].Fired) == 0 {
 		stats.probe("fault-not-fired")
@@ -535,7 +536,7 @@ func checkC14FaultOutcome(c C14Case, base, flt *sessRun, fs *simos.FS, info *cas
 		if delivered > len(in) {
 			delivered = len(in)
 		}
-		pre := fsFromFiles(s.Files, s.Dirs)
+		pre := fsFromSession(s.Files, s.Dirs, s.Links)
 		if i > 0 {
 			pre = base.FSPost[i-1]
 		}
@@ -902,7 +903,7 @@ func roundTripWorksWithoutPrecision(s Session) bool {
 	rt := *s.RT
 	rt.Eps = 0
 	s2.RT = &rt
-	r := runSession(s2, fsFromFiles(s2.Files, s2.Dirs), false, false)
+	r := runSession(s2, fsFromSession(s2.Files, s2.Dirs, s2.Links), false, false)
 	ok, _, _ := roundTripPromised(s2, r)
 	return ok && checkRoundTrip(s2, r) == nil
 }
